@@ -19,7 +19,7 @@ ABS = {"v": "-", "x": "-"}
 # ---------------------------------------------------------------- rendering forms to source
 def name_src(nm):
     base = "pyscript." + nm["e"]
-    return {"v": base, "old": base + ".old", "x": base + ".x", "*": base + ".*"}[nm["f"]]
+    return {"v": base, "old": base + ".old", "x": base + ".x", "oldx": base + ".old.x", "*": base + ".*"}[nm["f"]]
 
 
 def expr_src(x):
